@@ -18,6 +18,7 @@ MONITORS = {
     "C14": ["monitors.c14"],
     "C15": ["monitors.c15"],
     "C16": ["monitors.c16"],
+    "C17": ["monitors.c17"],
     "C19": ["monitors.c19"],
     "C20": ["monitors.c20"],
 }
